@@ -4,7 +4,9 @@ Same graph families as C18 (gen/graphs.py): every rooted digraph on 1..4 nodes (
 edges in {absent, normal, catch}, every successor insertion order for <= 3 nodes (thorough: 4), every method CFG of
 the shipped DEX files; plus HISTORIES on one Graph object (build, number, apply one -- thorough: two -- Graph API
 mutation(s) {add_edge, add_catch_edge, remove_node, entry change} keeping the graph rooted, number again after each:
-the numbering must be valid for the graph as it is at that moment; a stale but still valid numbering passes, equality
+the numbering must be valid for the graph as it is at that moment; 'long-chain' / 'big-fan': small cores inside graphs
+of more than recursionlimit/5 nodes (chain of L1 = limit//4+50 or 2*L1 nodes before/behind the core, or L1 leaves on the
+entry), same three clauses; a stale but still valid numbering passes, equality
 with a freshly built graph is not demanded).  The REAL `Graph.compute_rpo()` is run on a REAL Graph and `node.num` is judged semantically:
 
   (a) the entry has number 1;
@@ -45,12 +47,22 @@ MANIFEST = {
             "weaker than 'equal to a DFS').",
 }
 
+NLONG = 48
 CH5 = 1 << 17
 CH4 = 1 << 11
 
 
 def space(ctx):
-    return {"nodes": [1, 2, 3, 4] + ([5] if ctx.thorough else []),
+    lim = D.recursion_limit()
+    return {"long_chain_and_big_fan": {
+                "recursion_limit_under_androguard.decompiler": lim, "L1": lim // 4 + 50, "L2": 2 * (lim // 4 + 50),
+                "definition": "gen.graphs.long_cases: cores behind/before a chain of L plain nodes (quick: every rooted "
+                              "core on <= 3 nodes x both modes x L1; cores on <= 2 nodes also as diamonds and with L2) "
+                              "and cores whose entry has L1 extra leaf successors (quick: cores on <= 3 nodes and every "
+                              "5-node 'ordered DFS tree + <= 2 extra edges' core); thorough widens to 4-node cores, "
+                              "diamonds, L2, both leaf positions, tree+3",
+                "note": "pristine HEAD numbers the 2600-node chains (nested generators) without RecursionError"},
+            "nodes": [1, 2, 3, 4] + ([5] if ctx.thorough else []),
             "edge_sets": "all 2^(n*n) masks, kept iff every node reachable from node 0",
             "edge_kinds_for_<=3_nodes": ["absent", "normal", "catch"],
             "successor_insertion_orders": "all, for n <= %d" % (4 if ctx.thorough else 3),
@@ -65,6 +77,8 @@ def shards(ctx):
     for name in D.dex_files(ctx):
         parts = 4 if name.endswith("classes.dex") else 1
         s += [("dex", name, k, parts) for k in range(parts)]
+    # size-gated code paths: a small core inside a graph of > recursionlimit/5 nodes (long chain / big fan of leaves)
+    s += [("long", i, NLONG) for i in range(NLONG)]
     # histories on ONE Graph object: number, mutate through the API, number again (must be valid for the graph as it is)
     depth = 2 if ctx.thorough else 1
     s += [("hist", "bin", 1, 0, 2, 1, depth), ("hist", "bin", 2, 0, 16, 1, depth)]
@@ -243,11 +257,59 @@ def run_hist(ctx, shard, acc):
     return acc
 
 
+def judge_long(case, cache):
+    """One long-chain / big-fan case (gen.graphs.long_cases), judged by the same three clauses.  Returns (key, msg)/None."""
+    g, nodes, edges, lc = D.build_long(case, cache)
+    n = lc["n"]
+    rows = G.rows_of_edges(n, edges)
+    memo = {}
+
+    def reach(v):
+        if v not in memo:
+            memo[v] = G.reach_from(n, rows, v)
+        return memo[v]
+    k, ce = case["k"], [tuple(e) for e in case["core"]]
+    crow = G.rows_of_edges(k, ce)
+    label = "long-chain" if case["kind"] == "chain" else "big-fan"
+    key = "rpo:%s:n%d:%s" % (label, k, G.shape(k, crow, domtree.dominator_sets(k, crow, 0)))
+    try:
+        msg, _num = judge(g, nodes, rows, reach, 0)
+    except RecursionError as e:
+        return key + ":recursion", "%r: RecursionError %s" % (case, e)
+    if msg and "RecursionError" in msg:
+        key += ":recursion"
+    if msg:
+        return key, ("%s graph of %d nodes, core (k=%d, edges %s%s) at index %d, %s: %s"
+                     % (label, n, k, case["core"], ", every node a diamond" if case.get("diamond") else "",
+                        lc["core_off"], {x: case[x] for x in ("mode", "first", "L") if x in case}, msg[:900]))
+    return None
+
+
+def run_long(ctx, shard, acc):
+    _, part, nparts = shard
+    cache = {}
+    for i, case in enumerate(G.long_cases(ctx.thorough, D.recursion_limit())):
+        if i % nparts != part:
+            continue
+        res = judge_long(case, cache)
+        acc.n += 1
+        acc.nt_disjoint += 1
+        acc.count("long_%s_graphs" % case["kind"])
+        acc.count("long_nodes_total", case["L"] + case["k"])
+        if res:
+            acc.violation(res[0], dict(case, fam="long"), res[1])
+        if i == 300:
+            acc.sample(dict(case, fam="long"))
+    return acc
+
+
 def run_shard(ctx, shard):
     acc = Acc()
     kind = shard[0]
     if kind == "dex":
         return run_dex(ctx, shard, acc)
+    if kind == "long":
+        return run_long(ctx, shard, acc)
     if kind == "hist":
         return run_hist(ctx, shard, acc)
     n = shard[1]
@@ -332,6 +394,9 @@ def run_dex(ctx, shard, acc):
 
 
 def replay(ctx, w):
+    if w["fam"] == "long":
+        res = judge_long(w, {})
+        return res[1] if res else None
     if w["fam"] == "hist":
         res = run_history(w["n"], [tuple(e) for e in w["edges"]], w["ops"])
         return res[1] if res else None
